@@ -677,6 +677,10 @@ func main() {
 		{strings.TrimSuffix(*trDst, ".lean") + "Agg.lean", st.translateAgg()},
 		{strings.TrimSuffix(*trDst, ".lean") + "Web.lean", translateWeb(loadWeb(*repo))},
 		{strings.TrimSuffix(*trDst, ".lean") + "Func.lean", st.translateFunc()},
+		{strings.TrimSuffix(*trDst, ".lean") + "Args.lean", st.translateArgs()},
+		{strings.TrimSuffix(*trDst, ".lean") + "Cli.lean", translateCli(loadUi(*repo))},
+		{strings.TrimSuffix(*trDst, ".lean") + "Misc.lean", st.translateMisc()},
+		{strings.TrimSuffix(*trDst, ".lean") + "Aug.lean", st.translateAug()},
 	} {
 		if old, err := os.ReadFile(g.path); err != nil || !bytes.Equal(old, []byte(g.text)) {
 			if err := os.WriteFile(g.path, []byte(g.text), 0o644); err != nil {
